@@ -1,0 +1,9 @@
+//go:build verif
+
+package strconv
+
+// Read-only accessors for the verification harness (/verif). Compiled only with -tags verif.
+
+func VerifFloat64pow10() []float64  { return append([]float64{}, float64pow10...) }
+func VerifInt64pow10() []int64      { return append([]int64{}, int64pow10...) }
+func VerifFloat64exp(f float64) int { return float64exp(f) }
